@@ -415,7 +415,7 @@ func runC09(t *testing.T, tape *sim.Tape, tier string) *Outcome {
 			c.collect()
 			acts := c.actions()
 			for _, t := range cl.S.Runnable() {
-				if l, ok := t.Obj.(*sim.Listener); ok && l.Addr().String() == plainAddr {
+				if cl.isAcceptLoop(t, plainAddr) {
 					t := t
 					acts = append(acts, sim.Action{Key: "run", Do: func() { cl.S.Release(t) }})
 				}
